@@ -301,6 +301,31 @@ def gen_plan(rnd):
     return dict(wires=wires, watch=watch, layout=layout, nest=nest, steps=steps, domains=domains, attach=attach, wfparent=wfparent)
 
 
+def add_clock_names(rnd, plan):
+    """driver NAMES are free labels: an extra clock driver (of a domain box, of a leaf, of the recorder's own block) may carry the name
+    of the system default driver or the name of another extra driver; the objects stay distinct domains.  And the recorder's own
+    block may sit in a gated domain (gate = a Sequence outside that block).  Drawn from a stream of its own: the rest of the plan
+    is what it was."""
+    extra = [d for d in plan.get('domains') or []] + [sp['leafclk'] for sp in plan['wires'] if sp.get('leafclk')]
+    r = rnd.random()
+    if r < 0.12 or (not extra and r < 0.2):
+        ncyc = sum(st.get('n', 0) for st in plan['steps'])
+        plan['wires'].append(dict(kind='seq', width=1, values=_runs(rnd, [0, 1, 1], max(2, min(ncyc, 40))), once=False, nodom=True, athw=True,
+                                  name='w%d' % len(plan['wires']), scope=0))
+        plan['wfdom'] = dict(gate=len(plan['wires']) - 1)
+        plan['nest'] = True
+        extra.append(plan['wfdom'])
+    if extra and rnd.random() < 0.6:
+        # 'system' = the default driver's name; 'shared' = one label used by every driver so marked
+        mode = rnd.choice(['system', 'system', 'shared', 'mixed'])
+        for d in extra:
+            if rnd.random() < 0.8:
+                d['drvname'] = rnd.choice(['system', 'shared']) if mode == 'mixed' else mode
+        if mode == 'shared' and len(extra) == 1:
+            extra[0]['drvname'] = 'system'
+    return plan
+
+
 # --------------------------------------------------------------------------- execution + judgement
 
 def _classes():
@@ -380,19 +405,35 @@ def run_plan(plan, stats=None):
     blocks = {}
     doms = []
     gates = []
+    named = []          # (driver name, gate wire or None) of every extra driver: which names are shared is evidence
+
+    def drvname(d, default):
+        n = {None: default, 'system': hw.clockDriver.name, 'shared': 'gclk'}[d.get('drvname')]
+        named.append((n, ws[d['gate']] if d['gate'] is not None else None))
+        return n
+
     for j, dsp in enumerate(plan.get('domains') or []):
         b = Box(hw, 'dom%d' % j)
         g = ws[dsp['gate']] if dsp['gate'] is not None else None
-        b.clockDriver = py4hw.ClockDriver('clk%d' % (j + 2), base=hw.clockDriver, enable=g, wire=hw.wire('clk%dw' % (j + 2)))
+        b.clockDriver = py4hw.ClockDriver(drvname(dsp, 'clk%d' % (j + 2)), base=hw.clockDriver, enable=g, wire=hw.wire('clk%dw' % (j + 2)))
         doms.append(b)
         if g is not None:
             gates.append(g)
+    wfgate = None
+    if plan.get('wfdom'):
+        # the block that holds the recorder (and its probes) is a gated clock domain of its own
+        wfgate = ws[plan['wfdom']['gate']]
+        top.clockDriver = py4hw.ClockDriver(drvname(plan['wfdom'], 'clkrec'), base=hw.clockDriver, enable=wfgate, wire=hw.wire('clkrecw'))
+        gates.append(wfgate)
     in_dom = set()
     for i, s in enumerate(specs):
         k, nm = s['kind'], 'd%d' % i
         par = top
         if s.get('dom') is not None and k in ('seq', 'reg', 'counter'):
             par = doms[s['dom']]
+            in_dom.add(nm)
+        if s.get('athw'):
+            par = hw
             in_dom.add(nm)
         if k == 'seq':
             blocks[nm] = py4hw.Sequence(par, nm, [bool(v) for v in s['values']] if s.get('asbool') else list(s['values']), ws[i], once=bool(s.get('once')))
@@ -406,7 +447,7 @@ def run_plan(plan, stats=None):
             blocks[nm] = py4hw.Counter(par, nm, ws[s['reset']], ws[s['inc']], ws[i])
         if s.get('leafclk'):
             g = ws[s['leafclk']['gate']] if s['leafclk']['gate'] is not None else None
-            blocks[nm].clockDriver = py4hw.ClockDriver('lclk%d' % i, base=hw.clockDriver, enable=g, wire=hw.wire('lclk%dw' % i))
+            blocks[nm].clockDriver = py4hw.ClockDriver(drvname(s['leafclk'], 'lclk%d' % i), base=hw.clockDriver, enable=g, wire=hw.wire('lclk%dw' % i))
             if g is not None:
                 gates.append(g)
     pb = Probe(top, 'pb', ws, 'p_')
@@ -474,7 +515,22 @@ def run_plan(plan, stats=None):
     tags = []
     real_cycle = sim._clk_cycle
 
+    names = [hw.clockDriver.name] + [n for n, g in named]
+    samename_gates = [g for n, g in named if g is not None and names.count(n) > 1]
+    if any(names.count(n) > 1 for n in names):
+        cnt('recordings_with_two_drivers_of_one_name')
+    open_cycles = [0]
+
     def cycle_with_snapshot():
+        if samename_gates and any(g.get() == 0 for g in samename_gates):
+            cnt('cycles_with_gate_closed_on_a_driver_sharing_its_name')
+        if wfgate is not None:
+            if wfgate.get() == 0:
+                # no edge in the recorder's own domain: not a cycle of this recorder
+                cnt('cycles_recorder_domain_gated_off')
+                return real_cycle()
+            cnt('cycles_recorder_domain_open')
+        open_cycles[0] += 1
         for lst, w in zip(pre, ws):
             lst.append(w.get())
         tags.append(side.tag)
@@ -540,14 +596,16 @@ def run_plan(plan, stats=None):
             cnt('checkpoints')
             if since == 0:
                 cnt('checkpoints_zero_cycles')
-            nev += _judge(plan, wf, objs, ws, ref, since, bool(st.get('short')), cnt)
+            nev += _judge(plan, wf, objs, ws, ref, since if wfgate is None else len(tags), bool(st.get('short')), cnt)
             # ---- harness cross-checks (a failure here is a harness/simulator problem, not a C15 verdict)
-            if pb.calls != total or pa.calls != total:
-                problems.append('probe clocked %d/%d times in %d cycles' % (pb.calls, pa.calls, total))
+            if pb.calls != open_cycles[0] or pa.calls != open_cycles[0]:
+                problems.append('probe clocked %d/%d times in %d cycles of its domain (%d simulated)' % (pb.calls, pa.calls, open_cycles[0], total))
+            if wfgate is None and open_cycles[0] != total:
+                problems.append('cycle wrapper saw %d cycles, %d requested' % (open_cycles[0], total))
             if pb.rec != pa.rec:
                 problems.append('probe before and probe after the Waveform disagree')
             for i in poked:
-                if pb.rec[i] != model[i]:
+                if wfgate is None and pb.rec[i] != model[i]:
                     problems.append('probe does not see the poked values on %s' % specs[i]['name'])
             if problems:
                 return nev, nontriv, problems
@@ -671,6 +729,18 @@ def _features(plan):
                 f.add('inspector_between')
             if k > 0 and allw[k - 1]['wire'] is not None:
                 f.add('inspector_after_1bit_wire' if plan['wires'][allw[k - 1]['wire']]['width'] == 1 else 'inspector_after_wide_wire')
+    ex_ = [(d, 'domain_' + ('before' if d['pos'] == 'first' else 'after')) for d in plan.get('domains') or []] + \
+          [(sp['leafclk'], 'leaf') for sp in plan['wires'] if sp.get('leafclk')] + ([(plan['wfdom'], 'recorder_block')] if plan.get('wfdom') else [])
+    for d, where in ex_:
+        if d.get('drvname') == 'system' or (d.get('drvname') == 'shared' and sum(1 for d2, _ in ex_ if d2.get('drvname') == 'shared') > 1):
+            f.add('same_name_%s_driver_on_%s_%s' % ('gated' if d['gate'] is not None else 'ungated', where,
+                                                    'named_as_system_driver' if d['drvname'] == 'system' else 'named_as_another_driver'))
+            if d['gate'] is not None and where != 'recorder_block' and not plan.get('wfdom'):
+                f.add('recorder_in_ungated_domain_with_gated_same_name_driver_elsewhere')
+    if plan.get('wfdom'):
+        f.add('recorder_in_gated_domain')
+        if plan['wfdom'].get('drvname'):
+            f.add('recorder_in_gated_domain_whose_driver_shares_a_name')
     for dsp in plan.get('domains') or []:
         f.add('extra_clock_domain')
         if dsp['gate'] is not None:
@@ -723,7 +793,24 @@ def _features(plan):
     return f
 
 
+NEED_FEATURES = ('duplicate_entry', 'port_wire_alias', 'clear', 'zero_cycles', 'late_attach', 'inspector_between',
+                 'gated_domain_instantiated_before_recorder_domain', 'gated_domain_instantiated_after_recorder_domain', 'two_gated_domains',
+                 'leaf_with_own_gated_driver_is_first_clockable_of_recorder_block',
+                 'recorder_under_a_primitive', 'watched_1bit_wire_written_with_bools',
+                 'same_name_gated_driver_on_domain_before_named_as_system_driver', 'same_name_gated_driver_on_domain_after_named_as_system_driver',
+                 'same_name_gated_driver_on_leaf_named_as_system_driver', 'same_name_gated_driver_on_domain_before_named_as_another_driver',
+                 'recorder_in_ungated_domain_with_gated_same_name_driver_elsewhere', 'recorder_in_gated_domain',
+                 'recorder_in_gated_domain_whose_driver_shares_a_name')
+NEED_COUNTERS = ('lanes_decoded', 'checkpoints', 'cycles', 'cycles_with_gate_closed_on_a_driver_sharing_its_name',
+                 'cycles_recorder_domain_gated_off', 'cycles_recorder_domain_open')
+
+
 def run_check(run, tier, seed, shard):
+    run.assume('clock driver names are free labels: two ClockDriver objects with the same name (also the system default driver\'s name) are two '
+               'domains; the recorder is clocked by the driver of its nearest ancestor, whatever other drivers are called')
+    run.assume('a recorder whose own block is a gated clock domain has one simulated cycle per edge of that domain: a cycle before which its '
+               'domain\'s enable read 0 is not a cycle of this recorder (weakest reading, consistent with C10: the domain holds); every other '
+               'cycle must give exactly one sample')
     run.assume('pre-edge value = what a clockable placed next to the recorder reads with Wire.get() in the clocking phase of the same '
                '_clk_cycle; the probes before and after the Waveform must agree (else inconclusive)')
     run.assume('WaveDrom format decoded as rendered by get_wavedrom: lanes x<one char per cycle>x; clock lane P<one dot per cycle>x; '
@@ -742,7 +829,7 @@ def run_check(run, tier, seed, shard):
             run.inconclusive.append('watchdog: %d of %d recordings not run' % (len(idx) - done, len(idx)))
             break
         rnd = rng(seed, 'C15', k)
-        plan = gen_plan(rnd)
+        plan = add_clock_names(rng(seed, 'C15', 'clocknames', k), gen_plan(rnd))
         try:
             with muted():
                 nev, nontriv, problems = run_plan(plan, stats)
@@ -772,27 +859,21 @@ def run_check(run, tier, seed, shard):
         run.count(a, b)
     run.extra['recordings_with'] = feats
     if shard is None or shard[0] == 0:
-        for need in ('lanes_decoded', 'checkpoints', 'cycles'):
+        for need in (NEED_COUNTERS if shard is None else NEED_COUNTERS[:3]):
             if not stats.get(need):
                 run.inconclusive.append('monitor observed no %s' % need)
     if shard is None:
-        for need in ('duplicate_entry', 'port_wire_alias', 'clear', 'zero_cycles', 'late_attach', 'inspector_between',
-                 'gated_domain_instantiated_before_recorder_domain', 'gated_domain_instantiated_after_recorder_domain', 'two_gated_domains',
-                 'leaf_with_own_gated_driver_is_first_clockable_of_recorder_block',
-                 'recorder_under_a_primitive', 'watched_1bit_wire_written_with_bools'):
+        for need in NEED_FEATURES:
             if not feats.get(need):
                 run.inconclusive.append('no recording with %s' % need)
 
 
 def post_merge(run, tier, seed):
     feats = run.extra.get('recordings_with', {})
-    for need in ('duplicate_entry', 'port_wire_alias', 'clear', 'zero_cycles', 'late_attach', 'inspector_between',
-                 'gated_domain_instantiated_before_recorder_domain', 'gated_domain_instantiated_after_recorder_domain', 'two_gated_domains',
-                 'leaf_with_own_gated_driver_is_first_clockable_of_recorder_block',
-                 'recorder_under_a_primitive', 'watched_1bit_wire_written_with_bools'):
+    for need in NEED_FEATURES:
         if not feats.get(need):
             run.inconclusive.append('no recording with %s' % need)
-    for need in ('lanes_decoded', 'checkpoints', 'cycles'):
+    for need in NEED_COUNTERS:
         if not run.counters.get(need):
             run.inconclusive.append('monitor observed no %s' % need)
 
